@@ -102,6 +102,7 @@ def seq_axioms():
         # (an index term like `k - Len(s)` that *equals* 0 need not be syntactically 0)
         ForAll([v, i], At(Single(v), i) == v, patterns=[At(Single(v), i)]),
         ForAll([s, t], Len(App(s, t)) == Len(s) + Len(t), patterns=[App(s, t)]),
+        ForAll([s], App(s, Empty) == s, patterns=[App(s, Empty)]),
         ForAll([s, t, i], And(Implies(And(0 <= i, i < Len(s)), At(App(s, t), i) == At(s, i)), Implies(And(Len(s) <= i, i < Len(s) + Len(t)), At(App(s, t), i) == At(t, i - Len(s)))), patterns=[At(App(s, t), i)]),
         ForAll([s, t], SeqEq(s, t) == And(Len(s) == Len(t), ForAll([j], Implies(And(0 <= j, j < Len(s)), At(s, j) == At(t, j)), patterns=[At(s, j)])), patterns=[SeqEq(s, t)]),
         ForAll([s, t], Implies(SeqEq(s, t), s == t), patterns=[SeqEq(s, t)]),
@@ -375,6 +376,47 @@ def pre_post(h: Heap):
         ])
         _PRE[key] = (Pre, PreL, Post, PostL)
     return _PRE[key]
+
+
+_LEVEL: dict = {}
+
+
+def level_spec(h: Heap):
+    """Spec functions of the breadth-first orders over the child lists of heap h:
+         Kids(n)            the children of n as a sequence
+         CML(s, i)          Kids(s[0]) ++ ... ++ Kids(s[i-1])
+         Lvl(n, 0) = Kids(n)     Lvl(n, j+1) = CML(Lvl(n,j), len(Lvl(n,j)))        -- the nodes j+1 levels below n
+         RevAt(r, t, 0) = r      RevAt(r, t, j+1) = not RevAt(r,t,j) if t else RevAt(r,t,j)   -- direction of level j
+         LOP(n, 0, r, t) = []    LOP(n, j+1, r, t) = LOP(n,j,r,t) ++ (reversed(Lvl(n,j)) if RevAt(r,t,j) else Lvl(n,j))
+    The unfolding axioms of Lvl / RevAt / LOP are triggered by the (j+1) instance only: no matching loop."""
+    key = (h.syms["_children"].name(), h.syms["llen"].name(), h.syms["litem"].name())
+    if key not in _LEVEL:
+        k = len(_LEVEL)
+        Kids = Function(f"Kids<{k}>", Ref, PSeq)
+        CML = Function(f"CML<{k}>", PSeq, I, PSeq)
+        Lvl = Function(f"Lvl<{k}>", Ref, I, PSeq)
+        RevAt = Function("RevAt", B, B, I, B)
+        LOP = Function(f"LOP<{k}>", Ref, I, B, B, PSeq)
+        n, i, j = Const(f"n!lv{k}", Ref), Const(f"i!lv{k}", I), Const(f"j!lv{k}", I)
+        s = Const(f"s!lv{k}", PSeq)
+        r, t = Const(f"r!lv{k}", B), Const(f"t!lv{k}", B)
+        SPEC_AXIOMS.extend([
+            ForAll([n], Len(Kids(n)) == h.clen(n), patterns=[Kids(n)]),
+            ForAll([n, i], Implies(And(0 <= i, i < h.clen(n)), At(Kids(n), i) == h.child(n, i)), patterns=[At(Kids(n), i)]),
+            ForAll([s], CML(s, 0) == Empty, patterns=[CML(s, 0)]),
+            ForAll([s, i], Implies(And(0 <= i, i < Len(s)), CML(s, i + 1) == App(CML(s, i), Kids(At(s, i)))), patterns=[CML(s, i + 1)]),
+            ForAll([n], Lvl(n, 0) == Kids(n), patterns=[Lvl(n, 0)]),
+            ForAll([n, j], Implies(j >= 0, Lvl(n, j + 1) == CML(Lvl(n, j), Len(Lvl(n, j)))), patterns=[Lvl(n, j + 1)]),
+            ForAll([n, r, t], LOP(n, 0, r, t) == Empty, patterns=[LOP(n, 0, r, t)]),
+            ForAll([n, j, r, t], Implies(j >= 0, LOP(n, j + 1, r, t) == App(LOP(n, j, r, t), If(RevAt(r, t, j), Rev(Lvl(n, j)), Lvl(n, j)))), patterns=[LOP(n, j + 1, r, t)]),
+        ])
+        if k == 0:
+            SPEC_AXIOMS.extend([
+                ForAll([r, t], RevAt(r, t, 0) == r, patterns=[RevAt(r, t, 0)]),
+                ForAll([r, t, j], Implies(j >= 0, RevAt(r, t, j + 1) == If(t, Not(RevAt(r, t, j)), RevAt(r, t, j))), patterns=[RevAt(r, t, j + 1)]),
+            ])
+        _LEVEL[key] = (Kids, CML, Lvl, RevAt, LOP)
+    return _LEVEL[key]
 
 
 _FILT: dict = {}
